@@ -113,6 +113,14 @@ func buildFiber(cs *caseState, sp godi.Provider) *fiber.App {
 	})
 	app.Get(routePath(RouteNoScope), route(hCtrl))
 	s := app.Group("/s", godifiber.ScopeMiddleware(sp, so...))
+	// a second, differently configured ScopeMiddleware and Handle in the same process
+	var so2 []godifiber.Option
+	for i := 0; i <= o.NMW; i++ {
+		pos := foreignMW + i
+		so2 = append(so2, godifiber.WithMiddleware(func(sc godi.Scope, c *fiber.Ctx) error { return look(c).onMW(pos, sc) }))
+	}
+	d := app.Group("/d", godifiber.ScopeMiddleware(sp, so2...))
+	d.Get("/"+RouteCtrl, godifiber.Handle(func(k *Ctrl, c *fiber.Ctx) error { return c.SendStatus(200) }, godifiber.WithPanicRecovery(!o.Recovery)))
 	s.Get("/"+RouteCtrl, route(hCtrl))
 	s.Get("/"+RoutePlain, route(nil))
 	s.Get("/"+RouteUnreg, route(hUnreg))
